@@ -19,6 +19,7 @@ import (
 	"github.com/dominant-strategies/go-quai/consensus/blake3pow"
 	"github.com/dominant-strategies/go-quai/core"
 	"github.com/dominant-strategies/go-quai/core/rawdb"
+	"github.com/dominant-strategies/go-quai/core/state"
 	"github.com/dominant-strategies/go-quai/core/types"
 	"github.com/dominant-strategies/go-quai/core/vm"
 	"github.com/dominant-strategies/go-quai/ethdb"
@@ -693,4 +694,47 @@ func (n *Net) MineN(k int, fill bool) ([]*Mined, error) {
 func (n *Net) Settle() error {
 	_, err := n.BuildPending(n.Heads(), false)
 	return err
+}
+
+// ---------------------------------------------------------------- helpers for adversarial checks
+
+// Reseal grinds a new nonce for a (mutated) block until its PoW hash is at or
+// below the target of its declared difficulty and its order is wantOrder
+// (-1 = any). It returns the order.
+func (n *Net) Reseal(b *types.WorkObject, wantOrder int) (int, error) {
+	return n.Seal(b, wantOrder, false)
+}
+
+// MemImage copies every key/value of a level's memory database.
+func (n *Net) MemImage(lvl int) map[string][]byte {
+	img := map[string][]byte{}
+	nd := n.Nodes[lvl]
+	it := nd.DB.NewIterator(nil, nil)
+	for it.Next() {
+		img[string(it.Key())] = append([]byte{}, it.Value()...)
+	}
+	it.Release()
+	return img
+}
+
+// DiffImage lists keys that were added, removed or changed between two images.
+func DiffImage(a, b map[string][]byte) (added, removed, changed []string) {
+	for k, v := range b {
+		if av, ok := a[k]; !ok {
+			added = append(added, k)
+		} else if string(av) != string(v) {
+			changed = append(changed, k)
+		}
+	}
+	for k := range a {
+		if _, ok := b[k]; !ok {
+			removed = append(removed, k)
+		}
+	}
+	return
+}
+
+// ZoneStateAt opens the zone's account state at a block's roots.
+func (n *Net) ZoneStateAt(b *types.WorkObject) (*state.StateDB, error) {
+	return n.Zone().Core.StateAt(b.EVMRoot(), b.EtxSetRoot(), b.QuaiStateSize())
 }
